@@ -56,4 +56,159 @@ SiteStat(ts, stat, sets, idx, pol, a, b) ==
   LET S == SetsOf(sets, idx) n == SizesOf(sets, idx) IN
   Sum({s \in 0..(Len(ts.sites) - 1) : a <= SitePos(ts, s) /\ SitePos(ts, s) < b}, LAMBDA s :
         Sum({al \in SiteAlleles(ts, s) : ~pol \/ al # ts.sites[s + 1].anc}, LAMBDA al : Num(stat, CarrierCounts(ts, s, al, S), n)))
+
+(***************************************************************************)
+(* Further statistics named by C08, each by its documented definition.     *)
+(* Rational results are pairs <<num, den>> compared in lowest terms.        *)
+(***************************************************************************)
+RECURSIVE Gcd(_, _)
+Gcd(a, b) == IF b = 0 THEN a ELSE Gcd(b, a % b)
+Abs(x) == IF x < 0 THEN -x ELSE x
+\* observed <<p, q>> (lowest terms, q > 0; q = 0 encodes nan) equals N / D (D >= 0; D = 0 means undefined)
+RatEq(obs, N, D) == IF D = 0 THEN obs[2] = 0
+                    ELSE LET g == Gcd(Abs(N), D) IN obs[2] # 0 /\ obs[1] = N \div g /\ obs[2] = D \div g
+SumSeq(q) == FoldSet(LAMBDA i, acc : acc + q[i], 0, DOMAIN q)
+AllSets(sets) == [t \in 1..Len(sets) |-> ToSet(sets[t])]
+AllSizes(sets) == [t \in 1..Len(sets) |-> Cardinality(ToSet(sets[t]))]
+Cells(a, b) == a..(b - 1)
+StatSitesIn(ts, a, b) == {s \in 0..(Len(ts.sites) - 1) : a <= SitePos(ts, s) /\ SitePos(ts, s) < b}
+
+\* ---- allele frequency spectrum -------------------------------------------------------
+\* An allele / branch enters the spectrum when it is carried by / ancestral to some but not all samples of
+\* the tree sequence; its coordinate is the vector of counts within the sample sets.
+Polymorphic(ts, cnt) == 0 < cnt /\ cnt < Cardinality(SamplesOf(ts))
+AfsSite(ts, S, pol, a, b, c) ==   \* number of (site, allele) pairs with coordinate c  (x2 when unpolarised: each counts 1/2)
+  Sum(StatSitesIn(ts, a, b), LAMBDA s :
+      Cardinality({al \in SiteAlleles(ts, s) : (~pol \/ al # ts.sites[s + 1].anc)
+                     /\ Polymorphic(ts, Cardinality({v \in SamplesOf(ts) : StateOf(ts, s, v) = al}))
+                     /\ CarrierCounts(ts, s, al, S) = c}))
+AfsBranch(ts, S, a, b, c) ==
+  Sum(Cells(a, b), LAMBDA x : LET par == ParentAt(ts, x) IN
+      Sum({u \in NodesOf(ts) : par[u] # NULL /\ Polymorphic(ts, NumSamplesIn(ts, par, u)) /\ BelowCounts(par, S, u) = c},
+          LAMBDA u : TimeOf(ts, par[u]) - TimeOf(ts, u)))
+AfsCoords(n) == IF Len(n) = 1 THEN {<<i>> : i \in 0..n[1]} ELSE {<<i, j>> : i \in 0..n[1], j \in 0..n[2]}
+AfsIndex(n, c) == IF Len(n) = 1 THEN c[1] + 1 ELSE c[1] * (n[2] + 1) + c[2] + 1
+\* res: flattened (row-major) array of one window, already scaled to integers (x span if normalised, x2 for the
+\* unpolarised site spectrum).  Polarised: entry c holds the mass of c.  Folded: c and n-c share one entry, the
+\* one with the larger total is empty (which of two equal-total coordinates holds the mass is left open).
+AfsOK(ts, mode, pol, sets, a, b, res) ==
+  LET S == AllSets(sets) n == AllSizes(sets)
+      mass(c) == IF mode = "site" THEN AfsSite(ts, S, pol, a, b, c) ELSE AfsBranch(ts, S, a, b, c)
+      at(c) == res[AfsIndex(n, c)]
+  IN \A c \in AfsCoords(n) :
+       IF pol THEN at(c) = mass(c)
+       ELSE LET d == Compl(c, n) IN
+            IF d = c THEN at(c) = mass(c)
+            ELSE /\ at(c) + at(d) = mass(c) + mass(d)
+                 /\ SumSeq(c) > SumSeq(d) => at(c) = 0
+                 /\ (at(c) = 0 \/ at(d) = 0)
+
+\* ---- Fst = 1 - 2 (d(X) + d(Y)) / (d(X) + 2 d(X,Y) + d(Y)) -----------------------------
+Raw(ts, mode, stat, sets, idx, a, b) == IF mode = "site" THEN SiteStat(ts, stat, sets, idx, FALSE, a, b) ELSE BranchStat(ts, stat, sets, idx, FALSE, a, b)
+FstOK(ts, mode, sets, idx, a, b, obs) ==
+  LET n == AllSizes(sets) i == idx[1] + 1 j == idx[2] + 1
+      A == Raw(ts, mode, "diversity", sets, <<idx[1]>>, a, b)     da == n[i] * (n[i] - 1)
+      B == Raw(ts, mode, "diversity", sets, <<idx[2]>>, a, b)     db == n[j] * (n[j] - 1)
+      C == Raw(ts, mode, "divergence", sets, idx, a, b)          dc == n[i] * n[j]
+      num == 2 * C * da * db - A * db * dc - B * da * dc
+      den == A * db * dc + 2 * C * da * db + B * da * dc
+  IN RatEq(obs, num, den)
+
+\* ---- genetic relatedness (proportion=False) --------------------------------------------
+Prod(q) == FoldSet(LAMBDA i, acc : acc * q[i], 1, DOMAIN q)
+RelNum(x, n, i, j, centre) ==
+  IF ~centre THEN x[i] * x[j]
+  ELSE LET K == Len(n) P == Prod(n) sc == [t \in 1..K |-> x[t] * (P \div n[t])] M == SumSeq(sc)
+       IN (K * sc[i] - M) * (K * sc[j] - M)
+RelDen(n, i, j, centre) == IF ~centre THEN n[i] * n[j] ELSE (Len(n) * Prod(n)) * (Len(n) * Prod(n))
+RelTerm(x, n, i, j, centre, pol) == RelNum(x, n, i, j, centre) + (IF pol THEN 0 ELSE RelNum(Compl(x, n), n, i, j, centre))
+Relatedness(ts, mode, sets, idx, centre, pol, a, b) ==
+  LET S == AllSets(sets) n == AllSizes(sets) i == idx[1] + 1 j == idx[2] + 1 IN
+  IF mode = "site" THEN
+    Sum(StatSitesIn(ts, a, b), LAMBDA s :
+      Sum({al \in SiteAlleles(ts, s) : ~pol \/ al # ts.sites[s + 1].anc}, LAMBDA al : RelNum(CarrierCounts(ts, s, al, S), n, i, j, centre)))
+  ELSE
+    Sum(Cells(a, b), LAMBDA x : LET par == ParentAt(ts, x) IN
+      Sum({u \in NodesOf(ts) : par[u] # NULL}, LAMBDA u : (TimeOf(ts, par[u]) - TimeOf(ts, u)) * RelTerm(BelowCounts(par, S, u), n, i, j, centre, pol)))
+
+\* ---- general_stat with arbitrary (integer) sample weights ------------------------------
+\* W[q] is the weight row of the q-th sample (id order); the state of a node / allele is the column sums over
+\* the samples below it / carrying it; T the column totals.
+WSum(ts, W, X) == [t \in 1..Len(W[1]) |-> Sum({q \in 1..Len(W) : SampleSeq(ts)[q] \in X}, LAMBDA q : W[q][t])]
+GenF(fname, x, T) ==
+  CASE fname = "x1" -> x[1]
+    [] fname = "x1cx2" -> x[1] * (T[2] - x[2])
+    [] fname = "sq" -> x[1] * x[1] + x[2]
+GenTerm(fname, x, T, pol) == GenF(fname, x, T) + (IF pol THEN 0 ELSE GenF(fname, Compl(x, T), T))
+GeneralBranch(ts, W, fname, pol, a, b) ==
+  LET T == WSum(ts, W, SamplesOf(ts)) IN
+  Sum(Cells(a, b), LAMBDA x : LET par == ParentAt(ts, x) IN
+    Sum({u \in NodesOf(ts) : par[u] # NULL}, LAMBDA u : (TimeOf(ts, par[u]) - TimeOf(ts, u)) * GenTerm(fname, WSum(ts, W, Desc(par, u)), T, pol)))
+GeneralNode(ts, W, fname, pol, a, b, u) ==
+  LET T == WSum(ts, W, SamplesOf(ts)) IN
+  Sum(Cells(a, b), LAMBDA x : GenTerm(fname, WSum(ts, W, Desc(ParentAt(ts, x), u)), T, pol))
+GeneralSite(ts, W, fname, pol, a, b) ==
+  LET T == WSum(ts, W, SamplesOf(ts)) IN
+  Sum(StatSitesIn(ts, a, b), LAMBDA s :
+    Sum({al \in SiteAlleles(ts, s) : ~pol \/ al # ts.sites[s + 1].anc}, LAMBDA al :
+        GenF(fname, WSum(ts, W, {v \in SamplesOf(ts) : StateOf(ts, s, v) = al}), T)))
+
+\* ---- genealogical nearest neighbours ----------------------------------------------------
+\* In one tree: the closest ancestor-or-self of the focal node with a reference node other than the focal node
+\* below it; the proportions are those of the reference sets among these nodes (focal excluded); averaged over
+\* the cells where such an ancestor exists.
+GnnAnc(par, R, f) == LET path == PathUp(par, f) hit == {i \in 1..Len(path) : (Desc(par, path[i]) \cap R) \ {f} # {}}
+                     IN IF hit = {} THEN NULL ELSE path[Min(hit)]
+Fact(m) == FoldSet(LAMBDA i, acc : acc * i, 1, 1..m)
+GnnOK(ts, sets, f, k, obs) ==
+  LET S == AllSets(sets) R == UNION {S[t] : t \in 1..Len(S)}
+      defd == {x \in Cells(0, ts.L) : GnnAnc(ParentAt(ts, x), R, f) # NULL}
+      M == Fact(Cardinality(R))
+      num == Sum(defd, LAMBDA x : LET par == ParentAt(ts, x) p == GnnAnc(par, R, f)
+                                      tot == Cardinality((Desc(par, p) \cap R) \ {f})
+                                  IN Cardinality((Desc(par, p) \cap S[k]) \ {f}) * (M \div tot))
+  IN IF defd = {} THEN obs = <<0, 1>> ELSE RatEq(obs, num, M * Cardinality(defd))
+
+\* ---- mean descendants ---------------------------------------------------------------------
+MeanDescOK(ts, sets, u, k, obs) ==
+  LET S == AllSets(sets) R == UNION {S[t] : t \in 1..Len(S)}
+      defd == {x \in Cells(0, ts.L) : Desc(ParentAt(ts, x), u) \cap R # {}}
+      num == Sum(defd, LAMBDA x : Cardinality(Desc(ParentAt(ts, x), u) \cap S[k]))
+  IN IF defd = {} THEN obs = <<0, 1>> ELSE RatEq(obs, num, Cardinality(defd))
+
+\* ---- pair coalescence counts (per node, not normalised) ------------------------------------
+\* a pair coalesces at u when its two lineages join there, i.e. it comes from two different child subtrees of u
+\* (a sample that is itself the ancestor of the other member does not "coalesce" with it)
+JoinAt(par, v, w, u) == v # u /\ w # u /\ MRCAIn(par, v, w) = u
+PairsCoalescingAt(par, A, B, u) ==
+  IF A = B THEN Cardinality({pr \in SUBSET A : Cardinality(pr) = 2 /\ \E v, w \in pr : v < w /\ JoinAt(par, v, w, u)})
+  ELSE Cardinality({pr \in A \X B : JoinAt(par, pr[1], pr[2], u)})
+PairCoal(ts, sets, idx, a, b, u) ==
+  LET S == AllSets(sets) IN Sum(Cells(a, b), LAMBDA x : PairsCoalescingAt(ParentAt(ts, x), S[idx[1] + 1], S[idx[2] + 1], u))
+
+\* ---- Robinson-Foulds and Kendall-Colijn distances between two trees of one tree sequence ------
+Clades(ts, par) == {Desc(par, u) \cap SamplesOf(ts) : u \in NodesOf(ts)} \ {{}}
+\* only nodes of the tree (reachable from its root) define clades
+TreeNodes(par, root) == Desc(par, root)
+CladesOfTree(ts, par, root) == {Desc(par, u) \cap SamplesOf(ts) : u \in TreeNodes(par, root)}
+RF(ts, x, y, rx, ry) == LET A == CladesOfTree(ts, ParentAt(ts, x), rx) B == CladesOfTree(ts, ParentAt(ts, y), ry)
+                        IN Cardinality((A \ B) \cup (B \ A))
+\* squared KC distance for lambda in {0, 1}: pairs contribute (depth of / time from the root to) their MRCA,
+\* single samples 1 / their branch length
+KcPair(ts, par, root, lam, v, w) == LET m == MRCAIn(par, v, w) IN IF lam = 0 THEN DepthOf(par, m) ELSE TimeOf(ts, root) - TimeOf(ts, m)
+KcSingle(ts, par, lam, v) == IF lam = 0 THEN 1 ELSE (IF par[v] = NULL THEN 0 ELSE TimeOf(ts, par[v]) - TimeOf(ts, v))
+KcSquared(ts, x, y, rx, ry, lam) ==
+  LET px == ParentAt(ts, x) py == ParentAt(ts, y) Sm == SamplesOf(ts) IN
+  Sum({pr \in Sm \X Sm : pr[1] < pr[2]}, LAMBDA pr : LET d == KcPair(ts, px, rx, lam, pr[1], pr[2]) - KcPair(ts, py, ry, lam, pr[1], pr[2]) IN d * d)
+  + Sum(Sm, LAMBDA v : LET d == KcSingle(ts, px, lam, v) - KcSingle(ts, py, lam, v) IN d * d)
+
+\* ---- r^2 between two biallelic sites --------------------------------------------------------
+\* with A, B the derived alleles: D = f_AB - f_A f_B ; r^2 = D^2 / (f_A (1 - f_A) f_B (1 - f_B))
+R2OK(ts, s1, s2, obs) ==
+  LET Sm == SamplesOf(ts) n == Cardinality(Sm)
+      cA == {v \in Sm : StateOf(ts, s1, v) # ts.sites[s1 + 1].anc}
+      cB == {v \in Sm : StateOf(ts, s2, v) # ts.sites[s2 + 1].anc}
+      nA == Cardinality(cA) nB == Cardinality(cB) nAB == Cardinality(cA \cap cB)
+      dn == n * nAB - nA * nB
+  IN RatEq(obs, dn * dn, nA * (n - nA) * nB * (n - nB))
 =============================================================================
